@@ -104,6 +104,14 @@ def queue_pairs():
             out.append(f"put {e1!r} then {e2!r}: queue holds {q.qsize()} items, expected {want}")
             if len(out) > 3:
                 break
+        # ... also when the watches are real ObservedWatch objects that differ only in their filter
+        from watchdog.observers.api import ObservedWatch
+        q3 = EventQueue()
+        q3.put((e1, ObservedWatch("/w", recursive=True)))
+        q3.put((e1, ObservedWatch("/w", recursive=True, event_filter=[E.FileModifiedEvent])))
+        if q3.qsize() != 2:
+            out.append(f"the same event queued for an unfiltered and a filtered watch of one path: queue holds {q3.qsize()} items (two different entries expected)")
+            break
         # the same event for two different watches is two different items
         q2 = EventQueue()
         q2.put((e1, "w1"))
@@ -228,9 +236,78 @@ def preempt_put(scen, k):
     return out, hit
 
 
+def preempt_get(k):
+    """the consumer is preempted at the k-th bytecode executed in bricks.py during get() (wherever that code runs - inside
+    or outside the queue's mutex); a producer then tries to put an item equal to the one being taken out.  The two operations
+    overlap, so one or two items are both linearisable outcomes; what is checked: no exception, nothing else lost"""
+    q = SkipRepeatsQueue()
+    x1, x2 = It("X"), It("X")
+    q.put(x1)
+    reached, go = threading.Event(), threading.Event()
+    n = [0]
+    got, err = [], []
+
+    def local(frame, event, arg):
+        if event == "opcode":
+            n[0] += 1
+            if n[0] == k:
+                reached.set()
+                go.wait(5)
+        return local
+
+    def tracer(frame, event, arg):
+        if event == "call" and frame.f_code.co_filename.endswith("bricks.py"):
+            frame.f_trace_opcodes = True
+            return local
+        return None
+
+    def cons():
+        sys.settrace(tracer)
+        try:
+            got.append(q.get(timeout=2))
+        except Exception as e:  # noqa: BLE001
+            err.append(repr(e))
+        finally:
+            sys.settrace(None)
+    t = threading.Thread(target=cons, name="consumer")
+    t.start()
+    hit = reached.wait(0.5)
+    put_done = threading.Event()
+    if hit:
+        left_queue = len(q.queue) == 0     # has x1 already left the deque at the preemption point? (no lock: the consumer may hold it)
+
+        def prod():
+            q.put(x2)
+            put_done.set()
+        p = threading.Thread(target=prod, name="producer2")
+        p.start()
+        p.join(0.2)                       # blocks if the consumer is parked inside the mutex: that is fine
+    go.set()
+    t.join(3)
+    if hit:
+        p.join(3)
+    while True:
+        try:
+            got.append(q.get_nowait())
+        except queue.Empty:
+            break
+    out = []
+    if err:
+        out.append(f"consumer preempted at bytecode #{k} of the queue's own code during get(): get() raised {err[0]}")
+    elif hit and len(got) not in (1, 2):
+        # NOT demanded: two items whenever the first had already left the deque.  The put overlaps the get() (which has not
+        # returned): ordering the put first - equal to a waiting item, dropped - is a legal linearisation.  The unchanged
+        # code itself drops the second item when the consumer is preempted between popleft and the reset inside _get.
+        out.append(f"items obtained {got}")
+    return out, hit
+
+
 def main():
     if REPLAY is not None:
         c = REPLAY
+        if c["kind"] == "preempt-get":
+            pr, _hit = preempt_get(c["k"])
+            replay_result(bool(pr), pr[:3])
         if c["kind"] == "preempt":
             pr, _hit = preempt_put(c["scen"], c["k"])
             replay_result(bool(pr), pr[:3])
@@ -265,6 +342,17 @@ def main():
             bat.case(("preempt", scen, k))
             if pr:
                 bat.fail("C16.preempted-put", pr[0], {"kind": "preempt", "scen": scen, "k": k, "problems": pr[:3]}, "SkipRepeatsQueue.put")
+    misses = 0
+    for k in range(1, 200):
+        pr, hit = preempt_get(k)
+        if not hit and not pr:
+            misses += 1
+            if misses >= 2 and k > 3:
+                break
+            continue
+        bat.case(("preempt-get", k))
+        if pr:
+            bat.fail("C16.preempted-get", pr[0], {"kind": "preempt-get", "k": k, "problems": pr[:3]}, "SkipRepeatsQueue.get")
     for v in ("consumer", "producer"):
         bat.case(("scenario", v))
         pr = scen_late_bookkeeping(v)
